@@ -453,6 +453,67 @@ func c11Families(tier string) []explore.Family {
 		}
 	}})
 
+	// --- scaled: long collections with offset/limit at the boundaries of the length
+	bigN := []int{8, 9, 15, 16, 17, 31, 32, 33, 63, 64, 65, 100, 127, 128, 129, 255, 256, 257, 1000, 1024, 4097}
+	fams = append(fams, explore.Family{Name: "for-scaled", Count: int64(len(bigN) * 2 * 3 * 2), Run: func(i int64, r *explore.Rec) {
+		rx := radix{i}
+		tag, rp, rev, n := []string{"for", "tablerow"}[rx.next(2)], []string{"[]any", "[]int", "range-literal"}[rx.next(3)], rx.next(2) == 1, bigN[rx.next(len(bigN))]
+		for _, off := range []int{-99, 0, 1, n / 2, n - 1, n, n + 1} {
+			for _, lim := range []int{-99, 0, 1, n / 2, n - 1, n, n + 1} {
+				var offp, limp *int
+				if off != -99 {
+					o := off
+					offp = &o
+				}
+				if lim != -99 {
+					l := lim
+					limp = &l
+				}
+				coll, bind := c11Collection(rp, n)
+				ms, _ := modStr(rev, offp, limp, "literal")
+				var src string
+				if tag == "for" {
+					src = "{% for x in " + coll + " " + ms + " %}" + c11Trace + "{% if forloop.index == 1000 %}{% break %}{% endif %}{% else %}ELSE{% endfor %}"
+				} else {
+					src = "{% tablerow x in " + coll + " " + ms + " cols: 7 %}" + c11Trace + "{% endtablerow %}"
+				}
+				r.Eval()
+				r.Transition()
+				r.Trace()
+				o := Render(c11.eng, src, bind)
+				desc := func() any { return map[string]any{"template": src, "n": n, "representation": rp} }
+				sel, _ := c11Select(items(n), rev, offp, limp)
+				var sb strings.Builder
+				for k, it := range sel {
+					sb.WriteString(c11RefTrace(it, k+1, len(sel)))
+					if k+1 == 1000 {
+						break
+					}
+				}
+				want := sb.String()
+				got := o.Out
+				if tag == "tablerow" {
+					got = c12TableTags.ReplaceAllString(got, "")
+					if len(sel) > 0 {
+						if rows := strings.Count(o.Out, "<tr"); rows != (len(sel)+6)/7 {
+							r.Violation("wrong:scaled-tablerow-rows", desc(), fmt.Sprintf("%d rows", (len(sel)+6)/7), fmt.Sprint(rows))
+						}
+					}
+					if len(sel) >= 1000 {
+						continue // the break is not part of the tablerow body here
+					}
+				} else if len(sel) == 0 {
+					want = "ELSE"
+				}
+				if o.Panic != nil || o.Err != nil || got != want {
+					r.Violation("wrong:scaled-"+tag, desc(), trunc80(want), trunc80(o.String()))
+				}
+			}
+		}
+		r.Class(fmt.Sprintf("scaled/%s/%d", tag, n))
+		r.State(fmt.Sprintf("scaled:n=%d", n))
+	}})
+
 	// --- nested loops with break/continue and cycle at every level
 	fams = append(fams, c11Nested(tier)...)
 	return fams
@@ -597,7 +658,7 @@ func init() {
 		ID:    "C11",
 		Level: "model_checking",
 		Rule: "for: collection length 0..5 (quick) / 0..7 (thorough) x offset {absent,-1..6|8} x limit {absent,-1..6|8} x reversed x 10 body variants (plain, break/continue at item 1..3, inner-loop break/continue, break inside nested blocks) x 5 collection representations x 3 modifier spellings; " +
-			"tablerow: same grid x cols {absent,0..4}; ranges: all endpoint pairs in -3..6; maps of 0..4 entries; 14 nothing-selected cases; all nested loop programs of depth <=2 (quick) / <=3 (thorough) with length 1..3, break/continue at every index before/after the inner loop and 4 cycle variants per level; " +
+			"tablerow: same grid x cols {absent,0..4}; scaled: 21 lengths from 8 to 4097 (around powers of two) x offset/limit at {absent,0,1,n/2,n-1,n,n+1} x reversed x for/tablerow x 3 representations; ranges: all endpoint pairs in -3..6; maps of 0..4 entries; 14 nothing-selected cases; all nested loop programs of depth <=2 (quick) / <=3 (thorough) with length 1..3, break/continue at every index before/after the inner loop and 4 cycle variants per level; " +
 			"oracle = reference selection (reverse, skip, take) + forloop formulas + a reference interpreter for the nested programs; state = (length, |selected|); transition = one loop program rendered",
 		Assumptions: []string{
 			"negative offset/limit and cols: 0 are unspecified (no panic required only)",
